@@ -44,7 +44,7 @@ Lemma gfunction_results_lemma : forall r pre fn junk results nret lim,
 Proof.
   intros r pre fn junk results nret lim HR Hnret Hfit.
   pose proof (len_nonneg pre). pose proof (len_nonneg junk). pose proof (len_nonneg results).
-  pose proof HR as [Ht Hcap _ Hlim _].
+  pose proof HR as [Ht Hcap Hlc _ Hlim _].
   assert (HL : len (pre ++ fn :: junk ++ results) = len pre + 1 + len junk + len results) by (rd_norm; lia).
   unfold gReturn, adjust, MultRet in *.
   set (want := if nret =? -1 then len results else nret).
@@ -87,8 +87,8 @@ Lemma call_contract_lemma : forall r pre l fn args junk results nret fails lim,
   Rr r (pre ++ l) lim -> -1 <= nret ->
   len pre + len l + 1 + len args + len junk + len results + 1 <= lim ->
   len pre + len l + nret <= lim ->
-  exists r' lim', callByParamG r fn args junk results nret fails = Ok (r', fails) /\ lim <= lim' /\
-                  Rr r' (pre ++ l ++ (if fails then [] else adjust nret results)) lim'.
+  exists r', callByParamG r fn args junk results nret fails = Ok (r', fails) /\
+             Rr r' (pre ++ l ++ (if fails then [] else adjust nret results)) lim.
 Proof.
   intros r pre l fn args junk results nret fails lim HR Hnret Hroom Hret.
   pose proof (len_nonneg pre). pose proof (len_nonneg l). pose proof (len_nonneg args).
@@ -96,7 +96,7 @@ Proof.
   unfold callByParamG.
   destruct (Push_ok r (pre ++ l) lim fn HR) as (r1 & Q1 & HR1); [rd_norm; lia|]. rewrite Q1. cbn [bind].
   destruct (pushAll_ok args r1 _ lim HR1) as (r2 & Q2 & HR2); [rd_norm; lia|]. rewrite Q2. cbn [bind].
-  pose proof HR2 as [Ht2 _ _ _ _].
+  pose proof HR2 as [Ht2 _ _ _ _ _].
   assert (HL2 : len (((pre ++ l) ++ [fn]) ++ args) = len pre + len l + 1 + len args) by (rd_norm; lia).
   assert (Hbase : top r2 - len args - 1 = len pre + len l) by lia.
   rewrite Hbase. unfold initG.
@@ -108,18 +108,20 @@ Proof.
   destruct fails.
   - destruct (raisePush_ok r4 _ lim (Some VMsg) HR4) as (r5 & Q5 & HR5). rewrite Q5. cbn [bind].
     unfold pcallRecover.
-    destruct (SetTop_ok r5 _ _ (len pre + len l) HR5) as (r6 & Q6 & HR6); [lia|]. rewrite Q6. cbn [bind].
-    eexists. eexists. split; [reflexivity|]. split; [|].
-    2:{ replace (pre ++ l ++ []) with (resizeN (((((pre ++ l) ++ [fn]) ++ args) ++ junk) ++ [Some VMsg]) (len pre + len l));
-          [exact HR6|]. unfold resizeN. pw. }
-    lia.
+    assert (Hlim5 : len pre + len l <= limit r5).
+    { pose proof HR5 as [Ht5 _ Htl5 _ _ _ _]. rewrite Ht5 in Htl5. rd_norm_in Htl5. lia. }
+    destruct (SetTop_down1 r5 _ lim (len pre + len l) HR5) as (r6 & Q6 & HR6); [rd_norm; lia|exact Hlim5|].
+    rewrite Q6. cbn [bind].
+    eexists. split; [reflexivity|].
+    replace (pre ++ l ++ []) with (firstn (Z.to_nat (len pre + len l)) (((((pre ++ l) ++ [fn]) ++ args) ++ junk) ++ [Some VMsg]));
+      [exact HR6|]. pw.
   - destruct (pushAll_ok results r4 _ lim HR4) as (r5 & Q5 & HR5); [rd_norm; lia|]. rewrite Q5. cbn [bind].
     replace (((((pre ++ l) ++ [fn]) ++ args) ++ junk) ++ results)
       with ((pre ++ l) ++ fn :: (args ++ junk) ++ results) in HR5 by (rewrite <- !app_assoc; reflexivity).
     destruct (gfunction_results_lemma r5 (pre ++ l) fn (args ++ junk) results nret lim HR5 Hnret) as (r6 & Q6 & HR6);
       [rd_norm; lia|].
     rewrite len_app in Q6. rewrite Q6. cbn [bind].
-    exists r6, lim. split; [reflexivity|]. split; [lia|]. rewrite <- app_assoc in HR6. exact HR6.
+    exists r6. split; [reflexivity|]. rewrite <- app_assoc in HR6. exact HR6.
 Qed.
 
 (* ---------- the return of a Lua function (OP_RETURN A B, copyReturnValues) ---------- *)
@@ -164,7 +166,7 @@ Lemma lua_results_lemma : forall r pre fn regs A B wanted lim,
 Proof.
   intros r pre fn regs A B wanted lim HR HA HB Hw HAB Hfit.
   pose proof (len_nonneg pre) as Hp0. pose proof (len_nonneg regs) as Hr0.
-  pose proof HR as [Ht Hcap _ Hlim _].
+  pose proof HR as [Ht Hcap Hlc _ Hlim _].
   assert (HL : len (pre ++ fn :: regs) = len pre + 1 + len regs) by (rd_norm; lia).
   set (res := luaResults regs A B).
   assert (Hres : len res = if B =? 0 then len regs - A else B - 1).
